@@ -2287,6 +2287,7 @@ func c05Case(c *rig.Ctx) {
 		return st
 	}
 	joinStalled := func() bool { return true } // concurrent parts: joins the goroutine of the stalled connection after the release
+	var stalledSettled func() bool // concurrent parts with a stalled connection: its reader is parked in the writer, or done
 	if cw.concurrent {
 		// every peer delivers its own sequence on its own goroutine, as the SHIP readers of the connections do
 		seqs := make([][]c05Step, np)
@@ -2424,6 +2425,17 @@ func c05Case(c *rig.Ctx) {
 		}
 		cw.trackNM(-2, "the concurrent phase", nil)
 		if cw.stallPi >= 0 {
+			stalledSettled = func() bool {
+				if atomic.LoadInt64(&cw.stall.stalled) > 0 {
+					return true
+				}
+				select {
+				case <-dones[cw.stallPi]:
+					return true
+				default:
+					return false
+				}
+			}
 			joinStalled = func() bool {
 				ok := join("the released connection's delivery", []int{cw.stallPi})
 				delivered = int(atomic.LoadInt64(&nDelivered))
@@ -2465,7 +2477,18 @@ func c05Case(c *rig.Ctx) {
 	cw.flushHeld(r)
 
 	// --- a fresh peer connects after the damage; it is probed like every other connection
-	if r.Intn(3) == 0 {
+	freshOK := true
+	if stalledSettled != nil {
+		// concurrent parts: the stalled connection's reader goroutine has read w.Peers before it parked in the writer
+		// (or finished without ever being held). AddPeer below appends to w.Peers: order that goroutine's reads before
+		// the append through its own atomic counter or its done channel (harness-side happens-before edge; without it
+		// the race detector rightly reports the harness, once in 38 640 thorough cases)
+		freshOK = rig.WaitFor(3*time.Second, stalledSettled)
+		if !freshOK {
+			c.Count("fresh_peers_skipped:stalled_reader_neither_parked_nor_done", 1)
+		}
+	}
+	if r.Intn(3) == 0 && freshOK {
 		fi := len(w.Peers)
 		announce := r.Intn(2) == 0
 		cw.note("a fresh peer %d connects after the messages (announces itself: %v)", fi, announce)
